@@ -158,7 +158,9 @@ class DampedOscillationMegacomplex(Megacomplex):
             phase,
         )
 
-        if index_dependent(dataset_model):
+        # The dataset matrix is also index dependent if another megacomplex of the dataset
+        # (e.g. pfid) is, even when the irf of the dataset is not.
+        if len(dataset.matrix.shape) == 3:
             dataset[f"{prefix}_sin"] = (
                 (
                     global_dimension,
